@@ -721,7 +721,14 @@ V("C07", "angle-reference-ignores-periodic", APY, "        else:\n            _a
 V("C07", "dihedral-box-not-transposed", DHPY, "                box.transpose(0, 2, 1).copy(),", "                box.copy(),", "C07-R1", "compute_dihedrals")
 V("C07", "angle-kernel-vertex-first-atom", AKH, "int pairs[4] = {triplets[3*i+1], triplets[3*i], triplets[3*i+1], triplets[3*i+2]};", "int pairs[4] = {triplets[3*i], triplets[3*i+1], triplets[3*i+1], triplets[3*i+2]};", "C07-R2")
 V("C07", "dihedral-kernel-skips-middle", DHKH, "quartets[4*i+1], quartets[4*i+2], quartets[4*i+2], quartets[4*i+3]};", "quartets[4*i+1], quartets[4*i+2], quartets[4*i+1], quartets[4*i+3]};", "C07-R2")
-V("C07", "angle-reference-columns", APY, "    ix01 = angle_indices[:, [1, 0]]", "    ix01 = angle_indices[:, [0, 1]]", "C07-R2", "_angle")
+V("C07", "angle-reference-columns", APY, "    ix01 = angle_indices[:, [1, 0]]", "    ix01 = angle_indices[:, [0, 1]]", "C07-R3", "_angle")
+V("C07", "angle-reference-result-not-into-out", APY, "    return np.arccos(np.clip((u * v).sum(-1), -1.0, 1.0), out=out)", "    return np.arccos(np.clip((u * v).sum(-1), -1.0, 1.0))", "C07-R3", "_angle")
+V("C07", "angle-reference-periodic-dropped", APY, "    v_prime = distance.compute_displacements(traj, ix21, periodic=periodic, opt=False)", "    v_prime = distance.compute_displacements(traj, ix21, opt=False)", "C07-R2", "_angle")
+V("C07", "dihedral-reference-atan2-swapped", "mdtraj/geometry/dihedral.py", "    return np.arctan2(p1, p2, out)", "    return np.arctan2(p2, p1, out)", "C07-R3", "_dihedral")
+V("C07", "twin-dihedral-reference-b3-from-13", "mdtraj/geometry/dihedral.py", "    ix32 = indices[:, [2, 3]]", "    ix32 = indices[:, [1, 3]]", None)   # b2 x (b2 + b3) = b2 x b3: the same value
+V("C07", "dihedral-reference-b3-reversed", "mdtraj/geometry/dihedral.py", "    ix32 = indices[:, [2, 3]]", "    ix32 = indices[:, [3, 2]]", "C07-R3", "_dihedral")
+V("C07", "twin-dihedral-reference-comprehension", "mdtraj/geometry/dihedral.py", "    ix10 = indices[:, [0, 1]]\n    ix21 = indices[:, [1, 2]]\n    ix32 = indices[:, [2, 3]]\n", "    ix10, ix21, ix32 = [indices[:, [k, k + 1]] for k in range(3)]\n", None)
+V("C07", "twin-angle-reference-dot-then-normalise", APY, "    return np.arccos(np.clip((u * v).sum(-1), -1.0, 1.0), out=out)", "    cosine = (u_prime * v_prime).sum(-1) / (u_norm * v_norm)\n    return np.arccos(np.clip(cosine, -1.0, 1.0), out=out)", None)
 V("C07", "angle-upper-clamp-dropped", AKH, "            if (cosine > 1.0f) {\n               cosine = 1.0f;\n            }\n", "", "C07-R3")
 V("C07", "angle-clamp-after-acos", AKH, "            if (cosine < -1.0f) {\n                cosine = -1.0f;\n            }\n            if (cosine > 1.0f) {\n               cosine = 1.0f;\n            }\n            float angle = (float) acos(cosine);",
   "            float angle = (float) acos(cosine);\n            if (cosine < -1.0f) {\n                cosine = -1.0f;\n            }\n            if (cosine > 1.0f) {\n               cosine = 1.0f;\n            }", "C07-R3")
